@@ -153,6 +153,24 @@ public:
     for (const auto &p : ps)
       log << " " << p;
     log << ";";
+    // the boolean parameters of the active atoms (frozen when the atom starts)
+    std::vector<std::string> bs;
+    for (const auto *a : seen)
+      if (slv.get_sat_core().value(a->get_sigma()) == smt::True)
+        for (const auto &[xn, x] : a->get_exprs())
+          if (const bool_item *bi = dynamic_cast<const bool_item *>(&*x))
+          {
+            const auto v = slv.get_sat_core().value(bi->l);
+            bs.push_back(label(a) + "." + xn + "=" + (v == smt::True ? "T" : v == smt::False ? "F" : "U"));
+          }
+    if (!bs.empty())
+    {
+      std::sort(bs.begin(), bs.end());
+      log << "params";
+      for (const auto &b : bs)
+        log << " " << b;
+      log << ";";
+    }
   }
 
   std::vector<step> steps;
